@@ -9,6 +9,14 @@ PROPERTIES = {
         assumptions=["struct '<d' pack/unpack is a bijection on floats", "blake2b collision-freeness"],
         not_reached=[],
     ),
+    "C02": dict(
+        modules=["sample_checking"],
+        level="proof",
+        claim="the checker accepts a sample only if every active mandatory requirement holds, for every order/subset the history-dependent sorting can choose (sort modelled as an arbitrary permutation); default requirement set and requirement predicates as postconditions",
+        note="geometric predicates abstract (C04/C17); falsifiedBy assumed pure in the sample",
+        assumptions=["falsifiedBy is a pure function of the sample"],
+        not_reached=["geometry kernels behind the requirement predicates (C04/C17)"],
+    ),
 }
 
 NOT_APPLICABLE = {}
